@@ -111,7 +111,22 @@ func ReadAll(cs []Chunk, drw *dialect.ReadWriter, key *frame.V2Key, perCall *[]i
 	if err := rd.Initialize(); err != nil {
 		return "INITERR"
 	}
+	// frames are kept as returned and rendered only when reading has ended: a returned frame
+	// must not change because more input was read after it
 	var out []string
+	var kept []frame.Frame
+	render := func() string {
+		k := 0
+		res := make([]string, len(out))
+		for i, s := range out {
+			if s == "F" {
+				s = "F(" + Frame(kept[k]) + ")"
+				k++
+			}
+			res[i] = s
+		}
+		return strings.Join(res, " ")
+	}
 	for i := 0; i < total+2; i++ {
 		before := sr.Drawn - br.Buffered() + sr.Faults
 		var fr frame.Frame
@@ -125,18 +140,19 @@ func ReadAll(cs []Chunk, drw *dialect.ReadWriter, key *frame.V2Key, perCall *[]i
 		}
 		if res == "panic" {
 			out = append(out, "PANIC")
-			return strings.Join(out, " ")
+			return render()
 		}
 		if err != nil {
 			c := ErrClass(err)
 			out = append(out, c)
 			if c == "T0" && sr.Exhausted() && br.Buffered() == 0 {
-				return strings.Join(out, " ")
+				return render()
 			}
 			continue
 		}
-		out = append(out, "F("+Frame(fr)+")")
+		out = append(out, "F")
+		kept = append(kept, fr)
 	}
 	out = append(out, "NOEND")
-	return strings.Join(out, " ")
+	return render()
 }
